@@ -237,8 +237,19 @@ func (d *Discharger) Discharge(reg *Registry, o *Obligation) *OblResult {
 	r := &OblResult{O: o}
 	if o.Folded {
 		r.Status = "proved"
-		r.Res = SolveResult{Status: "unsat", Solver: "fold"}
-		d.count("fold", 0)
+		be := "fold"
+		if o.Kind == "effects" {
+			be = "effects"
+		}
+		r.Res = SolveResult{Status: "unsat", Solver: be}
+		d.count(be, 0)
+		return r
+	}
+	if o.Kind == "effects" || o.Kind == "frame" && o.Goal == "false" {
+		// decided by the effect analysis: a failed discipline check has no SMT script
+		r.Status = "failed"
+		r.Res = SolveResult{Status: "sat", Solver: "effects", Output: o.Src}
+		d.count("effects", 0)
 		return r
 	}
 	script := assembleScript(reg, o, false, false, false)
